@@ -47,7 +47,8 @@ class SurfaceParser(MCNP_Parser):
         if isinstance(p[0], str) and p[0] in {"*", "+"}:
             ret["modifier"] = syntax_node.ValueNode(p[0], str)
         else:
-            ret["modifier"] = syntax_node.ValueNode(None, str)
+            # a modifier set later is written directly in front of the number ("*1", never "* 1")
+            ret["modifier"] = syntax_node.ValueNode(None, str, never_pad=True)
 
         ret["number"] = p.number_phrase
         return syntax_node.SyntaxNode("surface_number", ret)
